@@ -235,14 +235,14 @@ pub fn reciprocal(g: &mut G) -> Vid {
 
 /// ReduceMeanAxesFusion: `ReduceMean(x, axes)` with constant `axes` input.
 ///
-/// knobs: 0 axes ([-1] / [r-1] / [0] / [0,r-1] / [] / all), 1 keepdims=0, 2 noop_with_empty_axes=1,
+/// knobs: 0 axes ([-1] / [r-1] / [0] / [0,r-1] / [] / all / [-2,-1]), 1 keepdims=0, 2 noop_with_empty_axes=1,
 /// 3 axes as attribute, 4 int32 axes.
 pub fn reduce_mean_axes(g: &mut G) -> Vid {
     g.knobs(&["axes", "keepdims0", "noop", "axesattr", "int32axes"]);
     let shape = g.base_shape(1, 4);
     let r = shape.len() as i64;
     let x = g.ctx_input(&shape);
-    let axes: Vec<i64> = match g.kc(0, 6) {
+    let axes: Vec<i64> = match g.kc(0, 7) {
         0 => vec![-1],
         1 => vec![r - 1],
         2 => vec![0],
@@ -254,7 +254,14 @@ pub fn reduce_mean_axes(g: &mut G) -> Vid {
             }
         }
         4 => vec![],
-        _ => (0..r).collect(),
+        5 => (0..r).collect(),
+        _ => {
+            if r >= 2 {
+                vec![-2, -1]
+            } else {
+                vec![-1]
+            }
+        }
     };
     let keep = g.kc(1, 2) == 0;
     let noop = g.kc(2, 2) == 1;
